@@ -278,7 +278,16 @@ fn run_history_registry(cx: &mut Cx, lang: &'static str, ops: &[Op]) {
                 }
             }
             Op::Limit(n) => {
-                set_limit(id, *n);
+                // (every other time the limit is written into the public field of the store the registry hands out)
+                if shown.len() % 2 == 0 {
+                    set_limit(id, *n);
+                } else {
+                    using_store(id, |s| s.limit = *n);
+                    if let Some(h) = shown.last_mut() {
+                        h.push_str(" [through using_store]");
+                    }
+                    cx.count("registry-driven histories: limits written through using_store");
+                }
                 m.limit = *n;
             }
             Op::Markers(a, b) => {
@@ -292,7 +301,13 @@ fn run_history_registry(cx: &mut Cx, lang: &'static str, ops: &[Op]) {
             Op::Search(q) => {
                 run_search(other, q);
                 run_search(id, q);
-                let got: Hits = using_results(id, |b| b.iter().map(|r| (r.id, r.title.clone())).collect());
+                // (one reader in three takes the hits out of the buffer it is handed instead of copying them)
+                let got: Hits = if searches % 3 == 2 {
+                    cx.count("registry-driven histories: hits taken out of the result buffer");
+                    using_results(id, |b| std::mem::take(b)).into_iter().map(|r| (r.id, r.title)).collect()
+                } else {
+                    using_results(id, |b| b.iter().map(|r| (r.id, r.title.clone())).collect())
+                };
                 let exp = St::build(m.lang, &m.recs, m.limit, m.markers).search(q);
                 cx.eval();
                 searches += 1;
@@ -459,6 +474,17 @@ fn c01_title(rng: &mut Rng, lang: &str, corpus: &[Rec]) -> String {
             // the shapes the known trap needs: short first word + separator + word, and its joined spelling
             let a = gen::rand_word(rng, &gen::lower_alphabet(lang), 1, 2);
             let b = gen::any_word(rng, lang);
+            let fws: Vec<&'static str> = crate::props::ranking::function_words(lang).into_iter().filter(|f| f.chars().count() >= 3).collect();
+            if !fws.is_empty() && rng.chance(1, 3) {
+                // a function word of the language and, further right, the same letters as two adjacent words ("into ... in-to",
+                // "seitdem ... seit dem"): a query word can match the function word alone and the two pieces jointly
+                let f: Vec<char> = rng.pick(&fws).chars().collect();
+                let k = rng.range(1, f.len() - 1);
+                let sep = *rng.pick(&[" ", "-", "'", ". "]);
+                let lead = if rng.chance(1, 2) { format!("{} ", b) } else { String::new() };
+                let mid = if rng.chance(1, 2) { format!("{} ", gen::any_word(rng, lang)) } else { String::new() };
+                return format!("{}{} {}{}{}{} {}", lead, s(&f), mid, s(&f[..k]), sep, s(&f[k..]), a);
+            }
             format!("{}{}{}", a, rng.pick(gen::SEPS1), b)
         }
         _ => gen::realistic_title(rng, lang, corpus),
